@@ -12,6 +12,8 @@ From PowHsm Require Import Gen.Src.
 From PowHsm Require Import Proofs.SrcEquivLedger.
 From PowHsm Require Import Gen.SrcM.
 From PowHsm Require Import Proofs.SrcEquivDongleM.
+From PowHsm Require Import Proofs.SrcEquivSignM.
+From PowHsm Require Import Proofs.SrcLiftSign.
 Open Scope N_scope.
 
 (* for every device script: the chunks sent are contiguous slices of the data in order, each of the requested size capped by what remains, so what the device holds is always a prefix of the data *)
@@ -220,5 +222,53 @@ Theorem C01_source_sign_unauthorized_is_model :
          srcm_HSM2Dongle__sign_unauthorized cm self key_id (VStr hash) w =
          mres sign_res (sign_unauthorized path_bin (fromhex hash) w).
 Proof. exact (@srcm_sign_unauthorized_ok). Qed.
+
+(* TIE BY TRANSLATION (device monad): sign_authorized of ledger/hsm2dongle.py - the four-step authorized signing, ~200 lines - as regenerated from the Python source text on this run, runs on EVERY world (any device script, legacy and segwit) exactly as the model: same (True, signature) | (False, code) | exception and the same final world, hence the same APDUs in the same order; key_id.to_binary() and encode_varint (python-bitcoinlib) are oracles *)
+Theorem C01_source_sign_authorized_is_model :
+  forall (cm : string -> pv -> list pv -> pr pv) (fuel : nat) (self key_id : pv)
+           (path_bin : bytes) (receipt_hex tx_hex ws_hex : str) (proof_hex : list str)
+           (receipt tx ws : bytes) (proof : list bytes) (input ov : Z) (segwit : bool) 
+           (w : world),
+         oracles_ok cm key_id path_bin ->
+         fromhex receipt_hex = Some receipt ->
+         fromhex tx_hex = Some tx ->
+         fromhex ws_hex = Some ws ->
+         all_some (map fromhex proof_hex) = Some proof ->
+         (S (Datatypes.length (script w)) <= fuel)%nat ->
+         srcm_HSM2Dongle__sign_authorized fuel cm self key_id (VStr receipt_hex)
+           (VList (map VStr proof_hex)) (VStr tx_hex) (VInt input) (mode_obj segwit) 
+           (VStr ws_hex) (VInt ov) w =
+         mres sign_res (sign_authorized path_bin receipt proof tx input (mode_str segwit) ws ov w).
+Proof. exact (@srcm_sign_authorized_ok). Qed.
+
+(* hence for the translated source itself: whenever it reports success, the device was handed exactly the client's path and input index, then the payload that decodes to (transaction, mode, extra data = witness script and outpoint value when segwit), then the receipt, then the merkle proof that decodes to the client's nodes - each part in contiguous chunks, nothing added, dropped or reordered *)
+Theorem C01_source_sign_authorized_success_device_holds :
+  forall (cm : string -> pv -> list pv -> pr pv) (fuel : nat) (self key_id : pv)
+           (path_bin : bytes) (receipt_hex tx_hex ws_hex : str) (proof_hex : list str)
+           (receipt tx ws : bytes) (proof : list bytes) (input ov : Z) (segwit : bool) 
+           (w w' : world) (sig : pv),
+         oracles_ok cm key_id path_bin ->
+         fromhex receipt_hex = Some receipt ->
+         fromhex tx_hex = Some tx ->
+         fromhex ws_hex = Some ws ->
+         all_some (map fromhex proof_hex) = Some proof ->
+         (S (Datatypes.length (script w)) <= fuel)%nat ->
+         srcm_HSM2Dongle__sign_authorized fuel cm self key_id (VStr receipt_hex)
+           (VList (map VStr proof_hex)) (VStr tx_hex) (VInt input) (mode_obj segwit) 
+           (VStr ws_hex) (VInt ov) w = (XOk (VList [VBool true; sig]), w') ->
+         exists (inb : list N) (nv : N) (ed : bytes) (a1 : resp) (g2 g3 g4 : list (bytes * resp)),
+           w' =
+           after w
+             (Apdu ([CLA; CMD_SIGN; SIGN_OP_PATH] ++ path_bin ++ inb) a1
+              :: group SIGN_OP_BTC_TX g2 ++
+                 group SIGN_OP_TX_RECEIPT g3 ++ group SIGN_OP_MERKLE_PROOF g4) 
+             (script w') /\
+           to_bytes_le 4 input = Some inb /\
+           sighash_netvalue (mode_str segwit) = Some nv /\
+           parse_btc_payload (concat (map fst g2)) = Some (tx, nv, ed) /\
+           (nv = 1 -> parse_extradata ed = Some (ws, Z.to_N ov)) /\
+           (nv <> 1 -> ed = []) /\
+           concat (map fst g3) = receipt /\ parse_proof (concat (map fst g4)) = Some proof.
+Proof. exact (@src_sign_authorized_success_device_holds). Qed.
 
 Example C01_nonvacuous : True. Proof. exact I. Qed. (* concrete runs closed by vm_compute in Proofs/C01.v: chunks_example (device asks 3, then 2, then moves on), chunks_example_early, the sign_authorized success and early-move-on examples *)
